@@ -190,7 +190,12 @@ CHECKS = {
               'force-field reader registers every declared block, link and modification exactly once, in file order, with '
               'exactly its own lines, for every sequence of headers and lines; backward-mapping weights are '
               'multiplicity/total with ! as zero and sum to one; the section table regenerated from the source is '
-              'consistent (every sub-section handled in the context of its top-level section). The equality '
+              'consistent (every sub-section handled in the context of its top-level section); the content lines of a block at '
+              'token level (_get_atoms, _base_parser, block references, _parse_block_atom): a line written as declared names, '
+              'delimiter, parameters and meta is read back as that, a fixed-size section takes exactly its atoms, too few / too '
+              'many atoms in front of the delimiter and undeclared names are rejected, accepted references are declared atoms '
+              'and an index i>=1 is the i-th atom (index 0 is REFUTED with a witness: finding F23), block atoms are the fifth '
+              'columns once and in order, duplicates rejected. The equality '
               'load(print(AST)) = AST for whole .ff and .itp files, and rejection of each listed fault, is differential '
               'testing against an expected value computed from the AST (not a theorem).'),
         design_ref='DESIGN.md section 5, C13',
